@@ -69,6 +69,9 @@ pub struct Case {
     /// number of fragments of the level-0 surface (`SplitView::new(..).len()`), part of the case line
     /// so that the code path (sequential / single fragment / multi fragment) is visible in it
     pub nf: u32,
+    /// fragment geometry per encoded level as (count, nominal height), taken from the real SplitView by the
+    /// generator (`nf=N@n0:f0,n1:f1,…`); None: legacy token, the model computes the split itself
+    pub geo: Option<Vec<(u32, u32)>>,
 }
 
 pub fn parse(line: &str) -> Option<Option<Case>> {
@@ -76,7 +79,18 @@ pub fn parse(line: &str) -> Option<Option<Case>> {
     if t.len() != 16 || t[0] != "run" {
         return None;
     }
-    let nf: u32 = t[15].strip_prefix("nf=")?.parse().ok()?;
+    let nft = t[15].strip_prefix("nf=")?;
+    let (nf, geo): (u32, Option<Vec<(u32, u32)>>) = match nft.split_once('@') {
+        None => (nft.parse().ok()?, None),
+        Some((a, g)) => {
+            let mut v = vec![];
+            for part in g.split(',') {
+                let (n, f) = part.split_once(':')?;
+                v.push((n.parse().ok()?, f.parse().ok()?));
+            }
+            (a.parse().ok()?, Some(v))
+        }
+    };
     let api_encoder = match t[1] {
         "E" => true,
         "F" => false,
@@ -141,6 +155,7 @@ pub fn parse(line: &str) -> Option<Option<Case>> {
         cancel,
         seed,
         nf,
+        geo,
     }))
 }
 
@@ -180,6 +195,19 @@ pub fn level_sizes(c: &Case) -> Vec<Size> {
 
 /// fragment heights of every level (through the public `SplitView`), used only to size the
 /// scheduler and to decide which canonical form the result line takes
+/// (count, nominal height) per level when every level's fragments are uniform except the last and non-empty
+pub fn geo_of(frs: &[Vec<u32>]) -> Option<Vec<(u32, u32)>> {
+    let mut v = vec![];
+    for f in frs {
+        let n = f.len();
+        if n == 0 || f.iter().any(|&x| x == 0) || f[..n - 1].iter().any(|&x| x != f[0]) || f[n - 1] > f[0] {
+            return None;
+        }
+        v.push((n as u32, f[0]));
+    }
+    Some(v)
+}
+
 pub fn level_fragments(c: &Case) -> Vec<Vec<u32>> {
     let mut out = vec![];
     for s in level_sizes(c) {
@@ -488,7 +516,7 @@ pub fn gen(seed: u64, thorough: bool) -> Vec<String> {
         let th = 1 + (*k * 7) % 16;
         let o = orders[(*k / 3) % 4];
         let nf = n_fragments(sh.0, w, h, sh.2, sh.3);
-        out.push(format!(
+        let line = format!(
             "run {api} {} {w} {h} {} {} {} {} {} {th} {o} {rep} {cancel} {} nf={nf}",
             sh.0,
             sh.1,
@@ -497,7 +525,16 @@ pub fn gen(seed: u64, thorough: bool) -> Vec<String> {
             if mips >= 2 { format!("m{mips}") } else { mips.to_string() },
             par as u8,
             rng.below(1 << 30)
-        ));
+        );
+        // the split rule is C14's subject: hand the real fragment geometry of every level to the model
+        let geo = match parse(&line) {
+            Some(Some(c)) => geo_of(&level_fragments(&c)),
+            _ => None,
+        };
+        match geo {
+            Some(g) => out.push(format!("{line}@{}", g.iter().map(|(n, f)| format!("{n}:{f}")).collect::<Vec<_>>().join(","))),
+            None => out.push(line),
+        }
     };
     // structured: every shape x sizes x API x mips x parallel x cancellation mode
     for sh in SHAPES {
@@ -616,6 +653,11 @@ pub fn run(line: &str) -> Option<(String, Vec<String>)> {
     let frs = level_fragments(&c);
     if frs[0].len() as u32 != c.nf {
         return Some((format!("bad-nf impl={}", frs[0].len()), vec![]));
+    }
+    if let Some(g) = &c.geo {
+        if geo_of(&frs).as_ref() != Some(g) {
+            return Some((format!("bad-geo impl={:?}", geo_of(&frs)), vec![]));
+        }
     }
     // is the report sequence independent of the completion order?
     let order_free = !c.opts.parallel
